@@ -375,7 +375,7 @@ Proof.
   destruct (complete_verified_all c ws sched i Hwf Hh Hi (or_introl Hc)) as (w & Hv & Hsum & Hw).
   destruct Hv as (_ & _ & Hd & _ & Hin).
   assert (El : length (payload w) = plen c i) by (pose proof (Hex w Hin); lia).
-  unfold written in Hw. rewrite El in Hw. unfold region. fold s. rewrite Hw.
+  unfold written in Hw. rewrite El in Hw. subst s. unfold region. rewrite Hw.
   rewrite <- Hsum. symmetry. apply Hs. exact Hin.
 Qed.
 
@@ -500,7 +500,7 @@ Theorem progress : forall c ws sched,
 Proof.
   intros c ws sched Hwf Hh S dn. pose proof (R_inv c ws sched Hwf Hh) as I. fold S in I.
   pose proof (progress_accounting c ws S I) as H. fold dn in H.
-  pose proof (count_marked_le (s_ths S)) as Hm.
+  pose proof (count_marked_le c (s_ths S)) as Hm.
   assert (Hl : length (s_ths S) = length ws).
   { rewrite <- (I_inputs _ _ _ _ I), map_length. reflexivity. }
   repeat split; try lia.
@@ -534,7 +534,7 @@ Definition lie_ws : list winput :=
   [ mkw 1 4 [[101; 102; 103; 104]%N] 137591733%N;
     mkw 0 4 [[97; 98; 99; 100; 88; 89]%N] 2533383276%N;
     mkw 0 4 [[97; 98; 99; 100]%N] 3984772369%N ].
-Definition lie_sched : list nat := repeat 0 12 ++ repeat 1 12 ++ repeat 2 12.
+Definition lie_sched : list nat := repeat 0 12 ++ repeat 1 12 ++ repeat 2 14.
 
 Theorem lying_reader_refuted :
   let s := s_st (R lie_cfg lie_ws lie_sched) in
@@ -562,7 +562,91 @@ Definition nv_ws : list winput :=
     mkw 2 4 [[1; 2; 3; 4]%N] 7%N;                         (* index out of range *)
     mkw 0 3 [[97; 98; 99]%N] 5%N ].                       (* wrong length *)
 Definition nv_sched : list nat :=
-  [0;0;0;0;0;0; 1;1;1; 2;2;2;2;2;2;2;2; 4; 5; 3;3;3;3;3;3;3;3;3; 0;0;0;0; 3;3; 0;0;0; 3;3;3;3; 1].
+  [0;0;0;0;0;0; 1;1;1; 2;2;2;2;2;2;2;2; 4; 5; 3;3;3;3;3;3;3;3;3; 0;0;0;0; 3;3; 0;0;0; 3;3;3;3; 1; 0].
 
 Lemma nv_honest : all_honest nv_ws.
 Proof. intros w Hw. simpl in Hw. unfold honestP. repeat (destruct Hw as [<-|Hw]; [simpl; lia|]). destruct Hw. Qed.
+
+Lemma nv_cf : coll_free lie_cfg lie_blob nv_ws.
+Proof.
+  intros w i Hw Hi Hidx Hs. change (i < 2) in Hi.
+  assert (Hi2 : i = 0 \/ i = 1) by lia.
+  simpl in Hw.
+  destruct Hw as [<-|[<-|[<-|[<-|[<-|[<-|[]]]]]]]; destruct Hi2 as [-> | ->]; simpl in *;
+    try reflexivity; try lia; try discriminate Hs.
+Qed.
+
+(* the hypotheses of the theorems are met by a history with a conflict, a corrupt payload, a
+   retry, an invalid index, a wrong length and two callers reaching the commit; it ends idle,
+   committed, with file = blob; and an in-flight prefix of it is in the cache but not yet
+   reported complete *)
+Theorem nonvacuous :
+  wf_cfg lie_cfg = true /\ c_len lie_cfg = length lie_blob /\ all_honest nv_ws /\
+  coll_free lie_cfg lie_blob nv_ws /\
+  (let S := R lie_cfg nv_ws nv_sched in
+   idle S = true /\ committed (s_st S) = true /\ cache_bytes (s_st S) = Some lie_blob /\
+   map t_pc (s_ths S) = [PDone ROk; PDone RConflict; PDone RWriteErr; PDone ROk; PDone RBadIndex; PDone RBadLength]) /\
+  (let S := R lie_cfg nv_ws (removelast nv_sched) in
+   idle S = false /\ incache (s_st S) = true /\ committed (s_st S) = false).
+Proof.
+  split; [reflexivity|]. split; [reflexivity|]. split; [exact nv_honest|]. split; [exact nv_cf|].
+  split; vm_compute; repeat split; reflexivity.
+Qed.
+
+(* ------------------------------------------------------------------ *)
+(* a duplicate: a well-formed call for a piece that is already complete when the call starts can
+   only return ErrPieceComplete, under every interleaving with the other callers *)
+
+Lemma pc_of_step_self : forall c S k w p, nth_error (s_ths S) k = Some (mkth w p) ->
+  pc_of (sys_step c S k) k = snd (tstep c (s_st S) w p).
+Proof.
+  intros c S k w p E. unfold sys_step. rewrite E. simpl.
+  destruct (tstep c (s_st S) w p) as [s' p'] eqn:Es. unfold pc_of. simpl.
+  rewrite nth_error_upd_eq by (apply nth_error_Some; congruence). reflexivity.
+Qed.
+
+Lemma input_of_step : forall c S j k w, (exists p, nth_error (s_ths S) k = Some (mkth w p)) ->
+  exists p, nth_error (s_ths (sys_step c S j)) k = Some (mkth w p).
+Proof.
+  intros c S j k w [p E]. unfold sys_step. destruct (nth_error (s_ths S) j) as [t|] eqn:Ej; [|eauto].
+  destruct (tstep c (s_st S) (t_in t) (t_pc t)) as [s' p'] eqn:Es. simpl.
+  destruct (Nat.eq_dec j k) as [->|Hne].
+  - rewrite nth_error_upd_eq by (apply nth_error_Some; congruence).
+    rewrite E in Ej. inversion Ej; subst. simpl. eauto.
+  - rewrite nth_error_upd_neq by auto. eauto.
+Qed.
+
+Theorem duplicate_gets_complete : forall c ws sched more k w i,
+  wf_cfg c = true -> all_honest ws ->
+  let S := R c ws sched in
+  nth_error (s_ths S) k = Some (mkth w PStart) ->
+  i < npieces c -> w_idx w = Z.of_nat i -> w_decl w = Z.of_nat (plen c i) ->
+  st_at (s_st S) i = Complete ->
+  forall r, pc_of (run c S more) k = PDone r -> r = RComplete.
+Proof.
+  intros c ws sched more k w i Hwf Hh S Hk Hi Hidx Hd Hc.
+  pose proof (R_inv c ws sched Hwf Hh) as I. fold S in I.
+  assert (G : forall more S, SInv c ws S -> st_at (s_st S) i = Complete ->
+            (exists p, nth_error (s_ths S) k = Some (mkth w p)) ->
+            (pc_of S k = PStart \/ pc_of S k = PChecked i \/ pc_of S k = PDone RComplete) ->
+            let S' := run c S more in
+            pc_of S' k = PStart \/ pc_of S' k = PChecked i \/ pc_of S' k = PDone RComplete).
+  { induction more0 as [|j more0 IH]; intros S0 I0 Hc0 Hw0 Hp0; simpl; auto.
+    apply IH.
+    - apply inv_sys_step; auto.
+    - apply (complete_stable_step c ws Hwf Hh S0 j i I0 Hi Hc0).
+    - apply input_of_step; auto.
+    - destruct (Nat.eq_dec j k) as [->|Hne]; [|rewrite pc_of_step_other by auto; exact Hp0].
+      destruct Hw0 as [p Ep]. unfold pc_of in Hp0. rewrite Ep in Hp0. simpl in Hp0.
+      rewrite (pc_of_step_self c S0 k w p Ep).
+      destruct Hp0 as [-> | [-> | ->]]; cbn [tstep].
+      + rewrite (I_len_st _ _ _ _ I0), Hidx, Nat2Z.id.
+        assert (E1 : (Z.of_nat i <? 0)%Z = false) by (apply Z.ltb_ge; lia).
+        assert (E2 : (Z.of_nat (npieces c) <=? Z.of_nat i)%Z = false) by (apply Z.leb_gt; lia).
+        rewrite E1, E2, Hd, Z.eqb_refl. simpl. auto.
+      + rewrite Hc0. simpl. auto.
+      + simpl. auto. }
+  intros r Hr.
+  assert (Hp : pc_of S k = PStart) by (unfold pc_of; rewrite Hk; reflexivity).
+  destruct (G more S I Hc (ex_intro _ PStart Hk) (or_introl Hp)) as [E|[E|E]]; rewrite E in Hr; congruence.
+Qed.
